@@ -93,49 +93,57 @@ Theorem C15_rejoin_after_backoff : forall w ls s, run (init w) ls = Some s ->
 Proof. exact backoff_final. Qed.
 Print Assumptions C15_rejoin_after_backoff.
 
-(* ---- leave on close.  Full statement: whenever run exits holding member id m, a LeaveGroup
-   for m was attempted (request sent, or the coordinator could not be reached for it) since
-   the last JoinGroup request; and Close only returns after run exited. ---- *)
-Definition C15_leave_on_close_full_statement : Prop := leave_on_close_full.
-
-(* REFUTED by the faithful model (defect F5 of /repo/consumergroup.go run): join as member 1,
-   SyncGroup answers RebalanceInProgress, nobody calls Next, Close. *)
-Theorem C15_leave_on_close_refuted : exists ls s,
-  run (init 0) ls = Some s /\ In (HCloseRet 0) (hist s) /\
-  In (HRunExit (XOffer ERebalance) (Some 1)) (hist s) /\
-  (forall e, In e (hist s) -> ev_is_leave 1 e = false) /\
-  (exists post pre, hist s = post ++ HRunExit (XOffer ERebalance) (Some 1) :: pre /\ left_since_join 1 pre = false) /\
-  mon_leave_full (hist s) = false.
-Proof. exact leave_full_refuted. Qed.
-Print Assumptions C15_leave_on_close_refuted.
-
-Theorem C15_leave_on_close_full_statement_false : ~ C15_leave_on_close_full_statement.
-Proof. exact leave_on_close_full_false. Qed.
-Print Assumptions C15_leave_on_close_full_statement_false.
-
-(* what holds: the same for every exit except the one from the error offer after
-   RebalanceInProgress (missing: exactly that path) ... *)
-Theorem C15_leave_on_close_partial : forall w ls s, run (init w) ls = Some s ->
+(* ---- leave on close.  "The current member id" is the memberID variable of
+   ConsumerGroup.run: it is set from every successful JoinGroup response, kept across generations
+   and across RebalanceInProgress results, cleared after the leave attempt that follows any other
+   error, and ALSO cleared (without LeaveGroup) when a JoinGroup request fails, because joinGroup
+   returns "" on error.  [HRunExit x (Some m)] = run returns while that variable holds m.
+   Whenever run exits holding m, a LeaveGroup for m was attempted (request sent: HLeaveReq, or the
+   coordinator could not be reached for it: HLeaveUnreach) since the last JoinGroup request;
+   and Close returns only after run exited. ---- *)
+Theorem C15_leave_on_close : forall w ls s, run (init w) ls = Some s ->
   (forall post x m pre, hist s = post ++ HRunExit x (Some m) :: pre ->
-     x = XOffer ERebalance \/
      exists pre1 e pre2, pre = pre1 ++ e :: pre2 /\ ev_is_leave m e = true /\ forall m', ~ In (HJoinReq m') pre1)
   /\ (forall post c pre, hist s = post ++ HCloseRet c :: pre -> exists x m, In (HRunExit x m) pre).
-Proof. exact leave_final_partial. Qed.
-Print Assumptions C15_leave_on_close_partial.
+Proof. exact leave_final. Qed.
+Print Assumptions C15_leave_on_close.
 
-(* ... and a member id is only ever held at exit on that path or on the ErrGroupClosed path *)
-Theorem C15_leave_on_close_only_gap : forall w ls s, run (init w) ls = Some s ->
+(* the same read at the Close return: run has exited before it, and if run held m the leave
+   attempt for m precedes the Close return *)
+Theorem C15_leave_before_close_returns : forall w ls s, run (init w) ls = Some s ->
+  forall post c pre, hist s = post ++ HCloseRet c :: pre ->
+  exists x om, In (HRunExit x om) pre /\
+    (forall m, om = Some m -> exists e, In e pre /\ ev_is_leave m e = true).
+Proof. exact leave_before_close_return. Qed.
+Print Assumptions C15_leave_before_close_returns.
+
+(* a member id is held at exit only on the ErrGroupClosed path and on the exit from the error
+   offer after RebalanceInProgress (the former defect F5, fixed in /repo: run now leaves there) *)
+Theorem C15_member_id_held_at_exit_only_on : forall w ls s, run (init w) ls = Some s ->
   forall x m, In (HRunExit x (Some m)) (hist s) -> x = XOffer ERebalance \/ x = XClosed.
 Proof. exact leave_only_gap. Qed.
-Print Assumptions C15_leave_on_close_only_gap.
+Print Assumptions C15_member_id_held_at_exit_only_on.
+
+(* regression of the former F5 witness: join as member 1, SyncGroup answers RebalanceInProgress,
+   nobody calls Next, Close: LeaveGroup for member 1 is sent before Close returns *)
+Theorem C15_f5_scenario_leaves : exists s, run (init 0) f5_scenario = Some s /\
+  mon_leave_full (hist s) = true /\ In (HLeaveReq 1) (hist s) /\ In (HCloseRet 0) (hist s).
+Proof. exact f5_scenario_leaves. Qed.
+Print Assumptions C15_f5_scenario_leaves.
 
 (* ---- the boolean monitors run on the implementation's recorded timelines are the ones the
    theorems above are read from ---- *)
 Theorem C15_monitors_hold : forall w ls s, run (init w) ls = Some s ->
   mon_one_live (hist s) = true /\ mon_heartbeat (hist s) = true /\
-  mon_backoff (hist s) = true /\ mon_leave (hist s) = true.
+  mon_backoff (hist s) = true /\ mon_leave_full (hist s) = true.
 Proof. exact monitors_final. Qed.
 Print Assumptions C15_monitors_hold.
+
+(* order of a generation's end: done is closed at most once per generation, before joined is
+   closed, before any late Start on it, and before the next generation is created *)
+Theorem C15_generation_end_order : forall w ls s, run (init w) ls = Some s -> mon_done (hist s) = true.
+Proof. exact done_holds. Qed.
+Print Assumptions C15_generation_end_order.
 
 (* ---- non-vacuity: a run with two generations, a watcher, accounted and late starts, a failed
    heartbeat-less rebalance by function exit, a failed join with back-off, Close during publish ---- *)
